@@ -529,6 +529,14 @@ class _CompressionMiddleware:
                 title="Unsupported Content-Encoding",
                 description=f"Content-Encoding {content_encoding!r} is not supported by this server",
             )
+        if req_enc is Encoding.IDENTITY:
+            # ``identity`` is the no-op transform: the body is already what the
+            # handlers expect, so it takes the same path as a request without a
+            # Content-Encoding header (the wire cap has already been applied).
+            # It is not in ``_decode`` -- that set mirrors the advertised codecs,
+            # which deliberately leave identity out -- so without this it was
+            # refused with 415 like an unknown coding.
+            return
         if req_enc not in self._decode:
             raise falcon.HTTPUnsupportedMediaType(
                 title="Unsupported Content-Encoding",
